@@ -21,6 +21,7 @@ type Failure struct {
 	Oracle string
 	Sig    string
 	Msg    string
+	Inv    *kit.Inv // the constructor invocation the failure is about, if any
 }
 
 func (f *Failure) String() string {
@@ -130,8 +131,35 @@ func startRunWith(cfg *kit.Config, order []int, prep func(*kit.World)) (*run, er
 	return x, nil
 }
 
+// noVoid drops named initializers from an identity pool. Programs in which a
+// resolution can overlap the Close of its scope do not resolve them: like any
+// scoped construction that overlaps a Close the initializer may then run a
+// second time for nothing (the result is discarded), which the run-once oracle
+// would have to guess at.
+func noVoid(ids []kit.Ident) []kit.Ident {
+	out := ids[:0:0]
+	for _, id := range ids {
+		if id.T != kit.TVoid {
+			out = append(out, id)
+		}
+	}
+	return out
+}
+
 func identPool(m *kit.Model, unregistered bool) []kit.Ident {
 	ids := m.AllIdents()
+	// identities that were registered and removed again before Build are part of
+	// every pool: resolving them must fail like any other unregistered identity
+	for _, id := range m.Order {
+		r := m.Regs[id]
+		for i, p := range r.AllProvides() {
+			if r.Dropped[i] {
+				if _, ok := m.Owner(p.Ident); !ok {
+					ids = append(ids, p.Ident)
+				}
+			}
+		}
+	}
 	if unregistered {
 		ids = append(ids,
 			kit.Ident{T: kit.NeverType},
@@ -423,6 +451,9 @@ func (x *run) observations() (out []seen, problems []*Failure) {
 		if m.NilOutput(o.Ident) {
 			continue // the constructor leaves this output nil: whatever comes back is not judged
 		}
+		if o.Ident.T == kit.TVoid {
+			continue // a named initializer: there is no instance, only the fact that it resolves (and does not run again)
+		}
 		via := "type"
 		if o.Ident.Key != "" {
 			via = "key"
@@ -461,7 +492,9 @@ func (x *run) observations() (out []seen, problems []*Failure) {
 				if a.Dep.Optional {
 					sig += "/optional"
 				}
-				problems = append(problems, fail("C04", "arg-present", sig, "%s received nil although r%d provides it", where, tg[0].Reg))
+				p := fail("C04", "arg-present", sig, "%s received nil although r%d provides it", where, tg[0].Reg)
+				p.Inv = inv
+				problems = append(problems, p)
 				continue
 			}
 			add(a.Entries[0], tg[0], inv.ScopeTag, where, false, "arg")
@@ -518,7 +551,7 @@ func (x *run) unexpectedErrors(prop string) *Failure {
 		} else if _, ok := x.M.Owner(o.Ident); ok {
 			registered = true
 		}
-		if registered && x.M.NilOutput(o.Ident) {
+		if registered && x.M.NilOutput(o.Ident) && o.Ident.T != kit.TVoid {
 			continue // nil output: an error is as good as a nil value
 		}
 		if registered && o.Err != nil {
@@ -564,6 +597,9 @@ func configLabels(cfg *kit.Config) []string {
 		r := &cfg.Regs[i]
 		set["form:"+formFeature(r)] = true
 		set["life:"+lifeName(r.Life)] = true
+		if len(r.Dropped) > 0 {
+			set["identity-removed-after-add"] = true
+		}
 		if r.UseIn {
 			set["param-object"] = true
 		}
